@@ -138,6 +138,29 @@ def backoff (fuel : Nat) (r : Nat → α) (p : Params α) : Outcome α :=
 
 end
 
+/-! ### acceptance of the default count
+
+"with the default count (factor > 1) the last value is stop" fixes the LAST value, not how many
+values there are: once at `stop` the sequence stays there, so an implementation whose default
+count is larger than the minimal one (one more `stop` at the end, say) still satisfies the
+statement.  In the correspondence the driver is told how many values `m` the implementation
+produced for `count=None`; when `m` is at least the model's own (minimal) default count the
+call is judged as the same call with `count=m`, otherwise (too few values: the last one is
+below `stop`) as the model's own default. -/
+section
+variable {α : Type} [LE α] [LT α] [DecidableLE α] [DecidableLT α] [BEq α]
+  [Mul α] [Sub α] [Neg α] [OfNat α 0] [OfNat α 1]
+
+def acceptCount (fuel : Nat) (p : Params α) (m : Nat) : Params α :=
+  match p.count with
+  | .dflt =>
+    match resolveCount fuel p with
+    | .num n => if n ≤ m then { p with count := .num (Int.ofNat m) } else p
+    | _ => p
+  | _ => p
+
+end
+
 /-! ### acceptance of jittered values
 
 The statement fixes the un-jittered sequence exactly (one multiplication per step) but a
